@@ -4,11 +4,17 @@
 // eval()/eval2() (parse.c).  The result is compared with the independent reference evaluator
 // ref_eval.h (validated against gcc), restricted to expressions whose evaluation C11 defines.
 //
-// Shape (-DDEPTH=2): root operator ROOT (concrete, -DROOT=<R_* code>) over 1..3 operands; each
-// operand is either a leaf or an operator node of SYMBOLIC kind (any of the 20 foldable binary/
-// unary/conditional kinds) over leaves.  Leaf = optional cast (any of the 9 integer types) of an
-// integer literal (int / unsigned / long / unsigned long, any value of that type).
-// -DDEPTH=1: root over leaves.
+// Shapes.  Node kinds are CONCRETE in every harness function (cbmc explores every case of a switch
+// on a symbolic kind, including the statement/lvalue cases of add_type, which does not terminate in
+// useful time); literal values, literal types and cast types are SYMBOLIC.
+//   h_d1_<root>: root operator over leaves.  Leaf = cast to any of the 9 integer types (or no cast)
+//                of an integer literal of type int / unsigned / long / unsigned long with ANY value.
+//                Since eval2() of a node depends only on the node's kind and type and on the folded
+//                values and types of its operands, this is the inductive step for trees of any depth.
+//   h_d2_<root>: for every operand-operator kind k in KSET (one independent sub-problem per k inside
+//                the same cbmc run): root over operator nodes of kind k over leaves (MASK selects
+//                which operands are operator nodes, the others are leaves).
+//   h_divzero_*: x / 0 and x % 0 must reach a diagnostic.
 #define VERIF_ON_EXIT(code) on_diag()
 static void on_diag(void);
 #include "common.h"
@@ -16,20 +22,21 @@ static void on_diag(void);
 #include "penv.h"
 #include "c07/ref_eval.h"
 
-#ifndef ROOT
-#define ROOT R_ADD
+#ifndef KSET
+#define KSET 0x1fffff      // bit k set: operand-operator kind k (R_* code) is included in h_d2_*
 #endif
-#ifndef DEPTH
-#define DEPTH 2
+#ifndef MASK
+#define MASK 7             // bit i set: operand i of the root is an operator node (else a leaf)
 #endif
 #ifndef CASTSET
 #define CASTSET 0   // 0: casts to the eight non-_Bool integer types; 1: casts to _Bool allowed too
 #endif
-#define R_CASTROOT 100  // ROOT value for "cast of one operand" (cast type symbolic)
+#define R_CASTROOT 100  // root code for "cast of one operand" (cast type symbolic)
 
 typedef struct { uint8_t lit; uint8_t cast; int64_t val; } LeafIn;
-typedef struct { uint8_t is_op; uint8_t op; LeafIn l[3]; } OperandIn;
-struct IN_t { OperandIn c[3]; uint8_t root_cast; } IN;
+typedef struct { LeafIn l[3]; } OperandIn;
+typedef struct { OperandIn c[3]; uint8_t root_cast; } CaseIn;
+struct IN_t { CaseIn t[R_NOPS + 1]; uint8_t sel; } IN;   // slot R_NOPS: the depth-1 case
 struct IN_t nondet_IN(void);
 
 static Type *real_ty(int s) {   // same selector as rt_sel()
@@ -69,39 +76,53 @@ static RV ref_leaf(const LeafIn *l) {
   RV v = {t, l->val, true};
   __CPROVER_assume(l->cast <= 9);
   if (!CASTSET) __CPROVER_assume(l->cast != 1);
-  if (l->cast) v = r_conv(v, rt_sel(l->cast));
+  if (l->cast) v = r_conv(v, rt_sel(l->cast));      // cast 0 = no cast = identity cast to the literal's type
   return v;
 }
 static Node *node_leaf(const LeafIn *l) {
   Node *n = new_num(l->val, NULL);                       // as primary() does for TK_NUM
   n->ty = l->lit == 0 ? ty_int : l->lit == 1 ? ty_uint : l->lit == 2 ? ty_long : ty_ulong;
-  if (l->cast) n = new_cast(n, real_ty(l->cast));        // as cast() does
-  return n;
+  // as cast() does.  "No cast" is built as the identity cast to the literal's own type so that the
+  // node shape stays concrete for the symbolic executor (eval2 of a bare ND_NUM is the inner step).
+  return new_cast(n, l->cast ? real_ty(l->cast) : n->ty);
 }
 
-// ---- operand: leaf or operator of symbolic kind over leaves
-static RV ref_operand(const OperandIn *c) {
+// ---- operand: leaf (k < 0) or operator of kind k over leaves
+static RV ref_operand(const OperandIn *c, int k) {
   RV a = ref_leaf(&c->l[0]);
-  if (DEPTH < 2 || !c->is_op) { return a; }
-  __CPROVER_assume(c->is_op == 1 && c->op < R_NOPS);
+  if (k < 0) return a;
+  if (arity(k) == 1) return r_unop(k, a);
   RV b = ref_leaf(&c->l[1]);
-  RV d = ref_leaf(&c->l[2]);
-  if (c->op == R_COND) return r_cond(a, b, d);
-  if (arity(c->op) == 1) return r_unop(c->op, a);
-  mul_bound(c->op, a, b);
-  return r_binop(c->op, a, b);
+  if (k == R_COND) return r_cond(a, b, ref_leaf(&c->l[2]));
+  mul_bound(k, a, b);
+  return r_binop(k, a, b);
 }
-static Node *node_operand(const OperandIn *c) {
+static Node *mk_op(int op, Node *a, Node *b, Node *d, int root_cast, bool is_root) {
+  // the constructors the parser uses: add() -> new_add/new_sub, cast() -> new_cast, conditional(),
+  // unary() -> new_unary, everything else -> new_binary.  new_add/new_sub (which reduce to
+  // new_binary(ND_ADD/ND_SUB) on integer operands) are run at the root only: their pointer-arithmetic
+  // paths make the returned node's kind symbolic for cbmc, which is affordable once per tree.
+  if (op == R_CASTROOT) return new_cast(a, real_ty(root_cast));
+  if (op == R_ADD && is_root) return new_add(a, b, NULL);
+  if (op == R_SUB && is_root) return new_sub(a, b, NULL);
+  if (op == R_COND) { Node *n = new_node(ND_COND, NULL); n->cond = a; n->then = b; n->els = d; return n; }
+  if (arity(op) == 1) return new_unary(kind_of(op), a, NULL);
+  return new_binary(kind_of(op), a, b, NULL);
+}
+static Node *node_operand(const OperandIn *c, int k) {
   Node *a = node_leaf(&c->l[0]);
-  if (DEPTH < 2 || !c->is_op) return a;
-  Node *b = node_leaf(&c->l[1]);
-  Node *d = node_leaf(&c->l[2]);
-  int ar = arity(c->op);
-  // new_binary() is what mul()/shift()/relational()/... call; add()/unary()/conditional() build the
-  // same node shape for integer operands (new_add/new_sub reduce to new_binary(ND_ADD/ND_SUB))
-  Node *n = new_binary(kind_of(c->op), a, ar >= 2 ? b : NULL, NULL);
-  if (ar == 3) { n->lhs = NULL; n->rhs = NULL; n->cond = a; n->then = b; n->els = d; }
-  return n;
+  if (k < 0) return a;
+  Node *b = arity(k) >= 2 ? node_leaf(&c->l[1]) : NULL;
+  Node *d = arity(k) == 3 ? node_leaf(&c->l[2]) : NULL;
+  return mk_op(k, a, b, d, 0, false);
+}
+
+// eval2() hands floating-typed nodes to eval_double(); integer-only trees never get there.  The
+// callee is cut (cbmc: --replace-calls eval_double:cut_eval_double) by a stub that ASSERTS this.
+double cut_eval_double(Node *node) {
+  VASSERT(0, "eval_double reached on an integer-only expression");
+  __CPROVER_assume(0);
+  return 0;
 }
 
 static bool expect_diag;
@@ -110,46 +131,64 @@ static void on_diag(void) {
   else VASSERT(0, "constant folder diagnoses an expression that C11 defines");
 }
 
-void h_fold(void) {
-  HAVOC_IN();
+// one case: root operator `root` over operands that are operator nodes of kind k (where MASK has the
+// operand's bit) or leaves.  root, k, mask are compile-time constants at every call site.
+static void fold_case(int root, int k, int mask, const CaseIn *in) {
   RV o[3], want;
+  int ar = arity(root);
   for (int i = 0; i < 3; i++)
-    if (i < arity(ROOT)) o[i] = ref_operand(&IN.c[i]);
-  if (ROOT == R_CASTROOT) {
-    __CPROVER_assume(IN.root_cast >= 1 && IN.root_cast <= 9);
-    if (!CASTSET) __CPROVER_assume(IN.root_cast != 1);
-    want = r_conv(o[0], rt_sel(IN.root_cast));
-  } else if (ROOT == R_COND) want = r_cond(o[0], o[1], o[2]);
-  else if (arity(ROOT) == 1) want = r_unop(ROOT, o[0]);
-  else { mul_bound(ROOT, o[0], o[1]); want = r_binop(ROOT, o[0], o[1]); }
+    if (i < ar) o[i] = ref_operand(&in->c[i], (mask >> i & 1) ? k : -1);
+  if (root == R_CASTROOT) {
+    __CPROVER_assume(in->root_cast >= 1 && in->root_cast <= 9);
+    if (!CASTSET) __CPROVER_assume(in->root_cast != 1);
+    want = r_conv(o[0], rt_sel(in->root_cast));
+  } else if (root == R_COND) want = r_cond(o[0], o[1], o[2]);
+  else if (ar == 1) want = r_unop(root, o[0]);
+  else { mul_bound(root, o[0], o[1]); want = r_binop(root, o[0], o[1]); }
   __CPROVER_assume(want.ok);      // only expressions whose evaluation C11 defines
 
   Node *n[3] = {0};
   for (int i = 0; i < 3; i++)
-    if (i < arity(ROOT)) n[i] = node_operand(&IN.c[i]);
-  Node *root;
-  if (ROOT == R_CASTROOT) root = new_cast(n[0], real_ty(IN.root_cast));
-  else if (ROOT == R_ADD) root = new_add(n[0], n[1], NULL);
-  else if (ROOT == R_SUB) root = new_sub(n[0], n[1], NULL);
-  else if (ROOT == R_COND) { root = new_node(ND_COND, NULL); root->cond = n[0]; root->then = n[1]; root->els = n[2]; }
-  else if (arity(ROOT) == 1) root = new_unary(kind_of(ROOT), n[0], NULL);
-  else root = new_binary(kind_of(ROOT), n[0], n[1], NULL);
-
-  int64_t got = eval(root);
+    if (i < ar) n[i] = node_operand(&in->c[i], (mask >> i & 1) ? k : -1);
+  Node *rootn = mk_op(root, n[0], n[1], n[2], in->root_cast, true);
+  int64_t got = eval(rootn);
   VASSERT(got == want.v, "eval() equals the C11 value of the expression (canonical at its C11 type)");
-  VCOVER();
 }
+
+static void d2_cases(int root) {
+  for (int k = 0; k < R_NOPS; k++)
+    if (KSET >> k & 1)
+      fold_case(root, k, MASK, &IN.t[k]);
+}
+
+#define DEF_ROOT(name, R) \
+  void h_d1_##name(void) { HAVOC_IN(); fold_case(R, -1, 0, &IN.t[R_NOPS]); VCOVER(); } \
+  void h_d2_##name(void) { HAVOC_IN(); d2_cases(R); VCOVER(); }
+DEF_ROOT(add, R_ADD)       DEF_ROOT(sub, R_SUB)       DEF_ROOT(mul, R_MUL)     DEF_ROOT(div, R_DIV)
+DEF_ROOT(mod, R_MOD)       DEF_ROOT(bitand, R_BITAND) DEF_ROOT(bitor, R_BITOR) DEF_ROOT(bitxor, R_BITXOR)
+DEF_ROOT(shl, R_SHL)       DEF_ROOT(shr, R_SHR)       DEF_ROOT(eq, R_EQ)       DEF_ROOT(ne, R_NE)
+DEF_ROOT(lt, R_LT)         DEF_ROOT(le, R_LE)         DEF_ROOT(logand, R_LOGAND) DEF_ROOT(logor, R_LOGOR)
+DEF_ROOT(comma, R_COMMA)   DEF_ROOT(neg, R_NEG)       DEF_ROOT(bitnot, R_BITNOT) DEF_ROOT(not, R_NOT)
+DEF_ROOT(cond, R_COND)     DEF_ROOT(cast, R_CASTROOT)
 
 // Division by zero in a constant expression must be diagnosed, not executed (C07 / C13).
-void h_divzero(void) {
+// The dividend is a leaf (sel == R_NOPS) or an operator node of kind sel over leaves; one case per path.
+static void divzero(int op) {
   HAVOC_IN();
-  RV a = ref_operand(&IN.c[0]);
-  RV b = ref_leaf(&IN.c[1].l[0]);
-  __CPROVER_assume(a.ok && b.v == 0);
-  Node *x = node_operand(&IN.c[0]);
-  Node *z = node_leaf(&IN.c[1].l[0]);
-  Node *root = new_binary(ROOT == R_MOD ? ND_MOD : ND_DIV, x, z, NULL);
-  expect_diag = true;
-  int64_t got = eval(root);
-  VASSERT(0, "x / 0 (or x % 0) was folded instead of diagnosed");
+  __CPROVER_assume(IN.sel <= R_NOPS);
+  for (int k = 0; k <= R_NOPS; k++) {
+    if (IN.sel != k) continue;
+    int kk = k == R_NOPS ? -1 : k;
+    RV a = ref_operand(&IN.t[k].c[0], kk);
+    RV b = ref_leaf(&IN.t[k].c[1].l[0]);
+    __CPROVER_assume(a.ok && b.v == 0);
+    Node *x = node_operand(&IN.t[k].c[0], kk);
+    Node *z = node_leaf(&IN.t[k].c[1].l[0]);
+    Node *rootn = new_binary(op == R_MOD ? ND_MOD : ND_DIV, x, z, NULL);
+    expect_diag = true;
+    int64_t got = eval(rootn);
+    VASSERT(0, "x / 0 (or x % 0) was folded instead of diagnosed");
+  }
 }
+void h_divzero_div(void) { divzero(R_DIV); }
+void h_divzero_mod(void) { divzero(R_MOD); }
